@@ -1281,12 +1281,11 @@ class Router(NetworkNode, discriminator="router"):
         """
         Resets the router's components for a new network simulation episode.
 
-        Clears ARP cache, resets ACL and route table to their original states, and re-enables all network interfaces.
-        This ensures that the router starts from a clean state for each simulation episode.
+        Re-enables all network interfaces. The ARP entries learned while this episode's network was being built are
+        kept, so that an environment behaves the same after a reset as it does when it is newly constructed.
 
         :param episode: The episode number for which the router is being reset.
         """
-        self.software_manager.arp.clear()
         for i, _ in self.network_interface.items():
             self.enable_port(i)
 
